@@ -172,6 +172,10 @@ func (c *rankCache) Add(id uint64, n uint64) {
 	// unless the count is 0, which is effectively used
 	// to clear the cache value.
 	if n < c.thresholdValue && n > 0 {
+		// The row does not qualify for the cache, but a count cached for
+		// it earlier is now wrong: forget it so that readers fall back
+		// to storage instead of reporting the old count.
+		delete(c.entries, id)
 		return
 	}
 
@@ -187,6 +191,8 @@ func (c *rankCache) BulkAdd(id uint64, n uint64) {
 	// As in Add: a count of 0 clears the cached value and must not be
 	// dropped for being below the threshold.
 	if n < c.thresholdValue && n > 0 {
+		// see Add: drop a count cached earlier, it is no longer right.
+		delete(c.entries, id)
 		return
 	}
 
